@@ -506,15 +506,20 @@ def main(argv=None):
         for k, v in sorted(known_hits.items(), key=lambda kv: -kv[1]):
             if k.startswith("collect:"):
                 print(f"  BUCKET {v:5d} {k[8:]}\n        e.g. {total.known_first.get(k)}"[:900])
+    if violations:
+        # a violation has a replay file and stands on its own, whatever
+        # happened in other shards
+        for path, what in violations:
+            print(f"  violation: {what[:600]}")
+            print(f"VIOLATION property={pid} replay={path}")
+        if errors:
+            print(f"  (in addition {len(errors)} shard(s) ended with a "
+                  f"harness error: {errors[0].strip().splitlines()[-1][:200]})")
+        return 1
     if errors:
         print(errors[0])
         print(f"HARNESS-ERROR property={pid} ({len(errors)} shard(s))")
         return 2
-    if violations:
-        for path, what in violations:
-            print(f"  violation: {what[:600]}")
-            print(f"VIOLATION property={pid} replay={path}")
-        return 1
     minimum = getattr(mod, "MIN_NONTRIVIAL", {}).get(tier, 2)
     if a.examples is None and len(total.keys) < max(2, minimum):
         print(f"HARNESS-ERROR property={pid} only {len(total.keys)} "
